@@ -32,7 +32,7 @@ FullMenu ==
    S(2, TRUE, "vary", FALSE), S(2, TRUE, "vary_name", FALSE), S(2, TRUE, "target", FALSE), S(1, TRUE, "en_vary", FALSE)}
   \cup {[ev |-> "Solve", broyden |-> FALSE], [ev |-> "Solve", broyden |-> TRUE]}
   \cup {[ev |-> "Reload", how |-> "first"], [ev |-> "Reload", how |-> "last"], [ev |-> "Reload", how |-> "mid"], [ev |-> "Reload", how |-> "tag"]}
-  \cup {[ev |-> "Tag"], [ev |-> "ClearLog"]}
+  \cup {[ev |-> "Tag"], [ev |-> "ClearLog"], [ev |-> "Retarget", j |-> 0, delta |-> 1]}
   \cup {[ev |-> "Disable", what |-> "v"], [ev |-> "Disable", what |-> "t"], [ev |-> "Enable", what |-> "v"], [ev |-> "Enable", what |-> "all"]}
 
 Emit == Len(calls) = 0 \/ PrintT(ToJson(<<"SEQ", calls>>))
